@@ -276,6 +276,7 @@ public:
         }
         if (auto* x = dyn_cast<CXXDeleteExpr>(e)) return json::Array{"delete", E(x->getArgument())};
         if (auto* x = dyn_cast<InitListExpr>(e)) {
+            if (x->getNumInits() == 1 && x->isTransparent()) return E(x->getInit(0));
             if (x->getNumInits() == 1 && !x->getType().isNull() && !x->getType()->isRecordType() && !x->getType()->isArrayType()) return E(x->getInit(0));
             json::Array a{"init", typeStr(x->getType())};
             for (auto* i : x->inits()) a.push_back(E(i));
